@@ -139,6 +139,25 @@ def oracle_stop(cfg, ex):
     return out
 
 
+def oracle_once(cfg, ex):
+    """C10 (thread-prefetch clause): the upstream of a shared cache runs at most once per example, and every
+    access returns the cached value."""
+    prob = sched_problem(ex)
+    if prob:
+        return [(prob[0], prob[1])]
+    n = cfg['n']
+    want = [100 + i for i in range(n)] * 2
+    for rec in ex.rounds:
+        if rec['delivered'] != want or rec['exc'] is not None:
+            return [('wrong-stream', f'delivered {rec["delivered"]} then {rec["exc"]}; expected {want}')]
+    starts = collections.Counter(ev[2] for ev in ex.log if ev[0] == 'start')
+    twice = sorted(p for p, c in starts.items() if c > 1)
+    if twice:
+        return [('computed-twice-by-concurrent-workers', f'examples {twice} were computed {[starts[p] for p in twice]} '
+                                                         f'times: two workers missed the cache for the same example')]
+    return []
+
+
 def oracle_bound(cfg, ex):
     """C07: read-ahead bounded by buffer_size at every prefix of the event log."""
     prob = sched_problem(ex)
@@ -204,6 +223,8 @@ def finding_key(kind, cfg):
         parts.append('source-error')
     if len(cfg.get('consumers', [1])) > 1:
         parts.append('second-iteration')
+    if cfg.get('pre'):
+        parts.append('+'.join(str(x) for x in cfg['pre']))
     return '/'.join(parts)
 
 
